@@ -250,6 +250,9 @@ def run(ctx):
             res = None
             for t in p.tests:
                 nf = expr.cmp_nf(t[3], t[2])
+                if not nf and t[3][0] == "binop" and t[3][1] == "BitAnd" and tuple(t[4]) == (0,) and t[2] in ("0", "false", "otherwise", "true"):
+                    # `match id & mask { 0 => .., _ => .. }`: a switch on the masked value itself
+                    nf = (t[3], "==" if t[2] in ("0", "false") else "!=", ("const", 0))
                 if not nf:
                     continue
                 a, rel, c = nf
